@@ -441,6 +441,66 @@ def anchor_pos(item, anchor):
     raise ExtractError("unknown anchor syntax %r" % anchor)
 
 
+
+def closures(item):
+    """closures in a fn body, source order (same numbering as the `closure N` anchors):
+    -> list of (tok index of opening '|', tok index of closing '|', char offset of the closure end)"""
+    toks = item.toks
+    res = []
+    k = item.tok_body + 1
+    while k < item.tok_last:
+        t = toks[k]
+        if t[0] == "p" and t[1] == "|" and toks[k - 1][0] == "p" and toks[k - 1][1] in "(,=":
+            j = k + 1
+            while not (toks[j][0] == "p" and toks[j][1] == "|"):
+                j += 1
+            e, end = j + 1, None
+            while e < item.tok_last:
+                u = toks[e]
+                if u[0] == "p" and u[1] in OPEN:
+                    e = match_close(toks, e)
+                elif u[0] == "p" and (u[1] in CLOSE or u[1] == ","):
+                    end = u[2]; break
+                e += 1
+            if end is None:
+                raise ExtractError("closure end not found in %s" % item.path)
+            res.append((k, j, end))
+            k = j
+        k += 1
+    return res
+
+
+def r7_closure_patterns(item):
+    """R7: a closure whose single parameter is a tuple pattern or `_`
+           |(a, b)| body        |_| body
+    is emitted as
+           |__pK| { let (a, b) = __pK; body }        |__pK| { let _ = __pK; body }
+    (Verus accepts only plain variables as closure parameters; the two forms are the same
+    program -- a closure parameter pattern *is* a `let` of the argument).  Implemented as four
+    pure insertions, so strip-and-compare removes it like any other inserted text:
+      `/*R7` before the pattern and `R7*/__pK` after it (the pattern is commented out, kept
+      verbatim), `{ let PAT = __pK;` after the parameter list (after an overlay `closure K open`
+      text, if any) and `}` at the closure end (before an overlay `closure K close`).
+    -> list of (offset, order, text)"""
+    toks, src = item.toks, item.src
+    out = []
+    for n, (a, b, end) in enumerate(closures(item)):
+        inner = toks[a + 1:b]
+        if not inner:
+            continue
+        is_tuple = inner[0][1] == "(" and match_close(toks, a + 1) == b - 1
+        is_wild = len(inner) == 1 and inner[0][1] == "_"
+        if not (is_tuple or is_wild):
+            continue
+        p0, p1 = inner[0][2], inner[-1][3]
+        pat = src[p0:p1]
+        var = "__p%d" % n
+        out.append((p0, -1, "/*R7"))
+        out.append((p1, -1, "R7*/" + var))
+        out.append((toks[b][3], 10 ** 6, " { let %s = %s; " % (pat, var)))
+        out.append((end, -2, " } "))
+    return out
+
 # ------------------------------------------------------------------ rewrites
 # Closed list.  Each returns (new_text, count).  They operate on the text of one
 # extracted item *before* overlay insertion and are invertible (see invert_*).
